@@ -19,6 +19,8 @@ static std::vector<value_spec> make_plan(rng& g, std::size_t n, int fmax, int po
         if (poison && g.below((unsigned) poison) == 0) v.tag = tags[g.below(3)];
         // the integrand asks for the weight (to record it) - except, now and then, where it returns zero: then nobody needs it
         v.wreq = !(v.f == 0 && v.tag == std::string("fin") && g.below(2) == 0);
+        // now and then (multi channel only; ignored elsewhere) a finite value meets an infinite weight: all densities vanish at that point
+        v.dz = v.wreq && v.f != 0 && v.tag == std::string("fin") && g.below(9) == 0;
     }
     return p;
 }
